@@ -19,7 +19,10 @@ def plain_msgs():
     if _msgs is None:
         try:
             r = C.harness_call(os.path.join(C.BIN, "harness"), "nasmsgs", [{}])[0]
-            _msgs = sorted((bytes.fromhex(m["hex"]) for m in r["msgs"] if m.get("rt")), key=len)
+            # constructor-built messages must round-trip through the codec to be usable; the messages written octet by octet
+            # from the TS 24.501 tables are canonical by construction and stay in the pool whatever the codec makes of them
+            literal = ("DeregistrationAcceptUEOriginating", "ConfigurationUpdateCommandBare")
+            _msgs = sorted((bytes.fromhex(m["hex"]) for m in r["msgs"] if m.get("rt") or m.get("name") in literal), key=len)
         except Exception:
             _msgs = []
         if len(_msgs) < 4:
